@@ -3,8 +3,10 @@ package harness
 import (
 	"fmt"
 	"regexp"
+	"runtime"
 	"runtime/debug"
 	"strings"
+	"time"
 
 	simos "verif.local/sim/simos"
 	"verif.local/sim/simrt"
@@ -47,6 +49,23 @@ type RunResult struct {
 	W       *world.World
 }
 
+// LeakedGoroutines counts runs after which goroutines started during the run
+// were still alive (blocked forever or still working).
+var LeakedGoroutines int
+
+var graveWorld *world.World
+
+// graveyard returns a frozen, empty world: every operation on it fails and has
+// no effect.
+func graveyard() *world.World {
+	if graveWorld == nil {
+		graveWorld = world.New(world.Spec{Cwd: "/"})
+		graveWorld.Frozen = true
+	}
+	graveWorld.Log = graveWorld.Log[:0]
+	return graveWorld
+}
+
 // DefaultBudget is the step budget of a case (bounded liveness): four to five
 // orders of magnitude above what a fault-free case of the generated sizes needs.
 var DefaultBudget uint64 = 60_000_000
@@ -61,6 +80,7 @@ func RunCLIHook(p *Program, spec world.Spec, hook func(w *world.World, op *world
 	w := world.New(spec)
 	w.InvariantHook = hook
 	simos.SetWorld(w)
+	goroutinesBefore := runtime.NumGoroutine()
 	res := &RunResult{W: w, Exit: -1}
 	func() {
 		defer func() {
@@ -92,7 +112,20 @@ func RunCLIHook(p *Program, spec world.Spec, hook func(w *world.World, op *world
 	if w.Killed {
 		res.Outcome = OutKilled
 	}
-	simos.SetWorld(nil)
+	// A changed gopatch may have started goroutines of its own that outlive
+	// main() (a read-ahead worker, say). Give them a moment to finish or to block
+	// for good, then park the environment on a frozen world: a straggler gets
+	// errors from it instead of reaching into the next run's world.
+	if runtime.NumGoroutine() > goroutinesBefore {
+		for i := 0; i < 400 && runtime.NumGoroutine() > goroutinesBefore; i++ {
+			runtime.Gosched()
+			time.Sleep(50 * time.Microsecond)
+		}
+		if runtime.NumGoroutine() > goroutinesBefore {
+			LeakedGoroutines++
+		}
+	}
+	simos.SetWorld(graveyard())
 	w.InvariantHook = nil
 	res.Stdout = w.Stdout
 	res.Stderr = w.Stderr
